@@ -1,6 +1,7 @@
 use std::cmp::Ordering;
 use std::sync::Arc;
 
+use crate::command::types::CompareOp;
 use crate::engine::core::ConditionEvaluator;
 use crate::engine::core::MemTable;
 use crate::engine::core::read::flow::{
@@ -194,7 +195,17 @@ impl FlowSource for MemTableSource {
                 .map_err(|e| FlowOperatorError::Batch(format!("failed to build schema: {}", e)))?,
         );
 
-        let evaluator = ConditionEvaluatorBuilder::build_from_plan(&self.config.plan);
+        let mut evaluator = ConditionEvaluatorBuilder::build_from_plan(&self.config.plan);
+        // An aggregation plan's evaluator carries no event_type condition (segments are read
+        // from per-type column files), but a memtable holds events of every type.
+        let event_type = self.config.plan.event_type();
+        if self.config.plan.aggregate_plan.is_some() && event_type != "*" {
+            evaluator.add_string_condition(
+                "event_type".to_string(),
+                CompareOp::Eq.into(),
+                event_type.to_string(),
+            );
+        }
         let query_ctx = QueryContext::from_command(&self.config.plan.command);
         let limit = self.determine_limit(&query_ctx);
 
